@@ -34,7 +34,7 @@ var targets = map[string][]string{
 	modPath + "/couchbase":           {"*"},
 	modPath + "/membership":          {"*"},
 	modPath + "/metadata":            {"*"},
-	modPath + "/kubernetes":          {"ha_membership.go", "stateful_set_membership.go"},
+	modPath + "/kubernetes":          {"ha_membership.go", "stateful_set_membership.go", "leader_elector.go"},
 	modPath + "/servicediscovery":    {"service_discovery.go", "rpc_client.go", "rpc_server.go"},
 	modPath + "/helpers":             {"utils.go"},
 	"github.com/asaskevich/EventBus": {"event_bus.go"},
@@ -52,6 +52,7 @@ var importSwap = map[string][2]string{
 // per-file swaps (file base name -> import path -> shim): "os" is only replaced where the host name is read
 var fileImportSwap = map[string]map[string][2]string{
 	"stateful_set_membership.go": {"os": {"verif/vrt/vos", "os"}},
+	"leader_elector.go":          {"k8s.io/client-go/tools/leaderelection": {"verif/vrt/vlease", "leaderelection"}},
 }
 
 // struct types whose fields never get yield points (pure metrics)
